@@ -1,39 +1,227 @@
 """subprocess body for C20: compiles one program under several in-process histories with the real compiler and pickles the
-machines. argv: out.pk program.nmfu other1.nmfu other2.nmfu ... ; flags come from the program's own // args line."""
+machines. argv: out.pk program.nmfu other1.nmfu other2.nmfu ... ; flags come from the program's own // args line (+ C20_FLAGS).
+
+Histories (C20_HISTORIES selects them, default all; `fresh` is always there):
+  fresh                 first compilation of the process
+  base: after-others          after k other programs (accepted or rejected) with allocation noise
+        twice-1 / twice-2     twice in a row after GC / allocation perturbation
+  after-rejected-expr   after a program rejected in the body of one macro whose `expr` arguments are called like the outputs of the
+                        program under test
+  after-rejected-macro  (in addition) after programs that the compiler REJECTS while it is expanding (nested) macros whose argument names are
+                        exactly the global names of the program under test (one argument kind per nesting level: expr, match,
+                        out, hook, macro, loop, finishcode, yieldcode), i.e. the worst-case leftover of an aborted expansion;
+                        also after programs rejected in the middle of named loops / try / case / foreach / if blocks
+  after-options         after compilations of another program (thorough tier: and of the program itself) under other option sets: higher and
+                        lower -O levels, other -f/-fno- flags; then the program with its own options
+"""
 import sys, pickle, gc, os
 sys.setrecursionlimit(200000)
 sys.path.insert(0, os.path.dirname(os.path.dirname(os.path.abspath(__file__))))
 from engines import nm
 
+N = nm.N
+
+# option sets used by the 'after-options' history, in this order: a lower level than any program's own with flags switched on, the
+# highest level, and an intermediate level with one flag of a higher level switched on and one of a lower level switched off
+OPTION_SETS = [
+    ('-O0', '-feof-support', '-fyield-support', '-fzero-len-input-support'),
+    ('-O3',),
+    ('-O2', '-fstrict-done-token-generation', '-findirect-start-ptr', '-fshortcircuit-fallthroughs', '-fno-remove-inaccesible-states'),
+]
+
+
+OPTION_HISTORY_PROGRAM = """out int n = 0;
+out str[8] word;
+parser {
+    optional { "x"; }
+    case {
+        "GET" -> { n = 1; }
+        "PUT", "POST" -> { n = 2; }
+        else -> { n = 3; }
+    }
+    " ";
+    word += /[a-z]+/;
+    "\\r\\n";
+}
+"""
+
+
+def config_now():
+    try:
+        return {f.name: bool(N.ProgramData.do(f)) for f in N.ProgramFlag}, {o.name: N.ProgramData.option(o) for o in N.ProgramOption}
+    except Exception as e:  # configuration not loaded
+        return {'<unreadable>': type(e).__name__}, {}
+
+
+def _plain(x, depth=0):
+    """address-free rendering of a declaration attribute"""
+    if isinstance(x, (str, bytes, int, float, bool, type(None))):
+        return repr(x)
+    if isinstance(x, (list, tuple)):
+        return [_plain(y, depth + 1) for y in x]
+    if isinstance(x, N.enum.Enum):
+        return str(x)
+    if depth > 3 or not hasattr(x, '__dict__'):
+        return type(x).__name__
+    return (type(x).__name__, sorted((k, _plain(v, depth + 1)) for k, v in vars(x).items() if not k.startswith('__')))
+
+
+def spec_summary(spec):
+    """the declared outputs: name, type, sizes, signedness, enum constants, default value"""
+    return [(name, _plain(o)) for name, o in spec.items()]
+
 
 def pack(c):
-    d = {'verdict': c.verdict, 'error': c.error[0] if c.error else None}
+    d = {'verdict': c.verdict, 'error': c.error[0] if c.error else None, 'flags': list(c.flags)}
+    if c.stage != 'flags':
+        # the effective configuration is part of what must be a function of (source, options) alone, also for rejected programs
+        d['cfg_now'], d['opts_now'] = config_now()
     if c.verdict == 'ok':
-        d.update(post=c.post, spec=c.spec, cfg=c.cfg, source=c.source)
+        d.update(post=c.post, spec=c.spec, cfg=c.cfg, source=c.source, opts=c.opts, spec_summary=spec_summary(c.spec))
     return d
+
+
+# ---------------------------------------------------------------------------------------------------------------------------
+def global_names(src):
+    """names the program declares, by role (read off the parse tree: independent of whether the program is accepted later)"""
+    g = {'out': [], 'hook': [], 'macro': [], 'loop': [], 'finishcode': [], 'yieldcode': []}
+    try:
+        tree = N.parser.parse(src, start='start')
+    except Exception:
+        return g
+    for t in tree.find_data('out_decl'):
+        g['out'].append((t.children[1].value, t.children[0].data))
+    for t in tree.find_data('hook_decl'):
+        g['hook'].append(t.children[0].value)
+    for t in tree.find_data('macro_decl'):
+        g['macro'].append(t.children[0].value)
+    for t in tree.find_data('code_decl'):
+        g[t.children[0].value] += [x.value for x in t.children[1:]]
+    for t in tree.find_data('loop_stmt'):
+        if t.children and isinstance(t.children[0], N.lark.Token) and t.children[0].type == 'IDENTIFIER':
+            g['loop'].append(t.children[0].value)
+    for k in g:
+        seen = set()
+        g[k] = [x for x in g[k] if not (x in seen or seen.add(x))]
+    return g
+
+
+def _expr_for(tyname, variant):
+    if tyname in ('str_type', 'unterm_str_type'):
+        return ('"zq"', '"qz1"')[variant]
+    if tyname == 'bool_type':
+        return ('true', 'false')[variant]
+    return ('[41]', '[zq_i + 3]')[variant]
+
+
+POISON_DECL = ['out int zq_i = 7;', 'out int zq_j = 9;', 'out str[6] zq_s;', 'hook zq_h;', 'finishcode ZQ_FIN;', 'macro zq_m() { "q"; }']
+
+
+def poison_expr_only(src):
+    """one program, rejected (undefined hook) in the body of a macro whose `expr` arguments are called like the outputs of `src`"""
+    outs = global_names(src)['out'] or [('zq_none', 'int_type')]
+    return ['\n'.join(POISON_DECL + [
+        f'macro zq_e({", ".join(f"expr {n}" for n, _ in outs)}) {{ zq_i = [zq_i + 1]; zq_undefined_hook(); }}',
+        f'parser {{ "a"; zq_e({", ".join(_expr_for(t, 0) for _, t in outs)}); }}']) + '\n']
+
+
+def poison_programs(src):
+    """programs that nmfu rejects while macros are being expanded; the arguments of those macros are called like the globals of `src`"""
+    g = global_names(src)
+    outs = g['out'] or [('zq_none', 'int_type')]
+    decl = ['out int zq_i = 7;', 'out int zq_j = 9;', 'out str[6] zq_s;', 'hook zq_h;', 'finishcode ZQ_FIN;', 'macro zq_m() { "q"; }']
+    has_yield = bool(g['yieldcode'])
+    if has_yield:
+        decl.append('yieldcode ZQ_YLD;')
+    progs = []
+    # (1) nested expansion: the outer macro has the `expr` arguments, the inner one an argument of every other kind (a name that the program
+    #     uses in two roles gets the first of them: one macro cannot have two arguments of one name); the inner body calls something that
+    #     does not exist. Whether a later lookup would walk the whole leftover stack or only its top, every kind is met.
+    levels = []   # (formal list, actual list)
+    levels.append(([f'expr {n}' for n, _ in outs], [_expr_for(t, 0) for _, t in outs]))
+    formals, actuals, used = [], [], set()
+    for kind, names, actual in (('out', [n for n, _ in outs], None), ('hook', g['hook'], 'zq_h'), ('macro', g['macro'], 'zq_m'), ('loop', g['loop'], 'zq_l'),
+                                ('finishcode', g['finishcode'], 'ZQ_FIN'), ('yieldcode', g['yieldcode'] if has_yield else [], 'ZQ_YLD')):
+        for n in names:
+            if n in used:
+                continue
+            used.add(n)
+            formals.append(f'{kind} {n}')
+            actuals.append(actual or ('zq_s' if dict(outs)[n] in ('str_type', 'unterm_str_type') else 'zq_i'))
+    levels.append((formals, actuals))
+    macros = []
+    for i, (formals, actuals) in enumerate(levels):
+        inner = 'zq_undefined_hook();' if i == len(levels) - 1 else f'zq_k{i + 1}({", ".join(levels[i + 1][1])});'
+        macros.append(f'macro zq_k{i}({", ".join(formals)}) {{ "k"; {inner} }}')
+    body = f'parser {{ "a"; loop zq_l {{ "b"; zq_k0({", ".join(levels[0][1])}); }} }}'
+    progs.append(('// args: -fyield-support\n' if has_yield else '') + '\n'.join(decl + macros + [body]) + '\n')
+    # (2) match arguments called like the outputs (+ the expr arguments again with other values); rejected by a type error in an
+    #     assignment in the body of a macro called from a macro
+    m_formals = [f'match {n}' for n, _ in outs]
+    progs.append('\n'.join(decl + [
+        f'macro zq_t({", ".join(m_formals)}) {{ zq_i = "not a number"; }}',
+        f'macro zq_u({", ".join(f"expr {n}" for n, _ in outs)}) {{ "u"; zq_t({", ".join(["/x+y/"] * len(outs))}); }}',
+        f'parser {{ "a"; zq_u({", ".join(_expr_for(t, 1) for _, t in outs)}); "b"; }}']) + '\n')
+    # (3) rejected in the middle of nested blocks (named loops called like the program's loops, try, case, foreach, if, optional)
+    ln = (g['loop'] or ['zq_l'])[0]
+    progs.append('\n'.join(decl + [
+        'parser {', f'  loop {ln} {{', '    try {', '      case {', '        "a" -> { foreach { /x+/; } do { zq_i = [zq_i + 1]; } }',
+        '        "b", /c+d/ -> { if zq_i == 3 { "e"; optional { "f"; zq_nothing_here = 1; } } else { "g"; } }',
+        f'        else -> {{ break {ln}; }}', '      }', '    } catch (nomatch) { zq_s += "h"; }', '  }', '  "z";', '}']) + '\n')
+    # the chain of (1) is compiled last: what it leaves behind is what a later lookup would meet first
+    return progs[::-1]
+
+
+def compile_history(srcs, junk=None):
+    """compile programs for their side effects only; reports (verdict, error class, was a macro expansion active when it was rejected)"""
+    rep = []
+    for s in srcs:
+        flags = None
+        if isinstance(s, tuple):
+            s, flags = s
+        try:
+            c = nm.compile_src(s, flags or (), use_src_args=flags is None)
+            # the undefined name is only mentioned in the innermost macro body: being rejected because of it means being rejected there
+            in_macro = c.verdict == 'error' and 'zq_undefined_hook' in (c.error[1] or '')
+            rep.append((c.verdict, c.error[0] if c.error else None, bool(in_macro)))
+        except Exception as e:
+            rep.append(('crash', type(e).__name__, False))
+        if junk is not None:
+            junk.append([object() for _ in range(1000)])
+    return rep
 
 
 def main():
     out, prog, others = sys.argv[1], sys.argv[2], sys.argv[3:]
     src = nm.read(prog)
     extra = tuple(x for x in os.environ.get('C20_FLAGS', '').split() if x)
+    hist = set((os.environ.get('C20_HISTORIES') or 'base after-rejected-expr after-rejected-macro after-options').split())
     res = {}
     res['fresh'] = pack(nm.compile_src(src, extra))
-    junk = []
-    for o in others:
-        try:
-            nm.compile_src(nm.read(o))
-        except Exception:
-            pass
-        junk.append([object() for _ in range(1000)])
-    res['after-others'] = pack(nm.compile_src(src, extra))
-    del junk
-    gc.collect()
-    pad = [bytearray(64) for _ in range(5000)]
-    del pad[::2]
-    res['twice-1'] = pack(nm.compile_src(src, extra))
-    res['twice-2'] = pack(nm.compile_src(src, extra))
-    gc.collect()
+    if 'base' in hist:
+        junk = []
+        compile_history([nm.read(o) for o in others], junk)
+        res['after-others'] = pack(nm.compile_src(src, extra))
+        del junk
+        gc.collect()
+        pad = [bytearray(64) for _ in range(5000)]
+        del pad[::2]
+        res['twice-1'] = pack(nm.compile_src(src, extra))
+        res['twice-2'] = pack(nm.compile_src(src, extra))
+        gc.collect()
+    meta = {}
+    if 'after-rejected-expr' in hist:
+        meta['rejected-history'] = compile_history(poison_expr_only(src))
+        res['after-rejected-expr'] = pack(nm.compile_src(src, extra))
+    if 'after-rejected-macro' in hist:
+        meta['rejected-history'] = meta.get('rejected-history', []) + compile_history(poison_programs(src))
+        res['after-rejected-macro'] = pack(nm.compile_src(src, extra))
+    if 'after-options' in hist:
+        # another (small) program under the other option sets; C20_OPT_SELF=1 (thorough tier): the program itself as well
+        srcs = [OPTION_HISTORY_PROGRAM] + ([src] if os.environ.get('C20_OPT_SELF') == '1' else [])
+        meta['options-history'] = compile_history([(x, fl) for fl in OPTION_SETS for x in srcs])
+        res['after-options'] = pack(nm.compile_src(src, extra))
+    res['__meta__'] = meta
     with open(out, 'wb') as f:
         pickle.dump(res, f)
 
